@@ -236,8 +236,11 @@ func runC20On(r *Run, rng *Rng, thorough bool, d *ClaimsDesc, first bool) {
 		try("element-indefinite", nTag(18, a).Bytes())
 	}
 	// trailing bytes, truncation
-	for _, x := range [][]byte{{0}, {0xf6}, tok} {
+	for _, x := range [][]byte{{0}, {0xf6}, tok, []byte("\r\n"), []byte("\n\n"), []byte("\r\n\r\n"), []byte(" \n"), {0, 0}, {0xff, 0xff}, {0xf6, 0x0a}} {
 		try("trailing", append(append([]byte{}, tok...), x...))
+	}
+	for x := 0; x < 256; x++ { // every single trailing byte (line ends, padding, break, pad-like simple values)
+		try("trailing-byte", append(append([]byte{}, tok...), byte(x)))
 	}
 	for n := 0; n < len(tok); n += 1 + len(tok)/60 {
 		try("truncated", tok[:n])
